@@ -5,7 +5,6 @@ import (
 	"encoding/hex"
 	"encoding/json"
 	"errors"
-	"fmt"
 	"strings"
 	"time"
 	"unicode/utf8"
@@ -193,10 +192,10 @@ func (d *testIface) VarlinkDispatch(ctx context.Context, c varlink.Call, methodn
 		case "reply":
 			c.Continues = a.Continues
 			err := c.Reply(ctx, rawOrNil(a.Params))
-			sim.Rec("h.act", fmt.Sprintf(`{"cid":%d,"i":%d,"op":"reply","err":%q}`, cid, i, errStr(err)))
+			sim.Rec("h.act", sf(`{"cid":%d,"i":%d,"op":"reply","err":%q}`, cid, i, errStr(err)))
 		case "error":
 			err := c.ReplyError(ctx, a.Name, rawOrNil(a.Params))
-			sim.Rec("h.act", fmt.Sprintf(`{"cid":%d,"i":%d,"op":"error","err":%q}`, cid, i, errStr(err)))
+			sim.Rec("h.act", sf(`{"cid":%d,"i":%d,"op":"error","err":%q}`, cid, i, errStr(err)))
 		case "builtin":
 			var err error
 			switch a.Name {
@@ -209,7 +208,7 @@ func (d *testIface) VarlinkDispatch(ctx context.Context, c varlink.Call, methodn
 			case "InterfaceNotFound":
 				err = c.ReplyInterfaceNotFound(ctx, a.Arg)
 			}
-			sim.Rec("h.act", fmt.Sprintf(`{"cid":%d,"i":%d,"op":"builtin","err":%q}`, cid, i, errStr(err)))
+			sim.Rec("h.act", sf(`{"cid":%d,"i":%d,"op":"builtin","err":%q}`, cid, i, errStr(err)))
 		case "sleep":
 			sim.Sleep(time.Duration(a.N) * time.Microsecond)
 		case "fail":
@@ -223,23 +222,16 @@ func (d *testIface) VarlinkDispatch(ctx context.Context, c varlink.Call, methodn
 			sim.Rec("h.rawread", mustJSON(map[string]interface{}{"cid": cid, "i": i, "data": string(b), "err": errStr(err)}))
 		case "rawwrite":
 			_, err := c.Conn.Write(ctx, []byte(a.Data))
-			sim.Rec("h.act", fmt.Sprintf(`{"cid":%d,"i":%d,"op":"rawwrite","err":%q}`, cid, i, errStr(err)))
+			sim.Rec("h.act", sf(`{"cid":%d,"i":%d,"op":"rawwrite","err":%q}`, cid, i, errStr(err)))
 		}
 		if ret != nil {
 			break
 		}
 	}
-	sim.Rec("h.leave", fmt.Sprintf(`{"cid":%d,"fail":%v}`, cid, ret != nil))
+	sim.Rec("h.leave", sf(`{"cid":%d,"fail":%v}`, cid, ret != nil))
 	return ret
 }
 
-func mustJSON(v interface{}) string {
-	b, err := json.Marshal(v)
-	if err != nil {
-		panic(err)
-	}
-	return string(b)
-}
 
 // ---------------------------------------------------------------------------
 // building the service and the actors
@@ -309,15 +301,15 @@ func rawClientTask(idx int, spec ServiceSpec, c ClientSpec) func() {
 		}
 		ep, err := sim.Dial(network, addr)
 		if err != nil {
-			sim.Rec("client.dialfail", fmt.Sprintf("%d", idx))
+			sim.Rec("client.dialfail", sf("%d", idx))
 			return
 		}
-		sim.Rec("client.dial", fmt.Sprintf(`{"client":%d,"conn":%d}`, idx, sim.ConnID(ep)))
+		sim.Rec("client.dial", sf(`{"client":%d,"conn":%d}`, idx, sim.ConnID(ep)))
 		if c.ReadPolicy != 0 {
 			sim.SetReadPolicy(ep, c.ReadPolicy)
 		}
 		if !c.NoRead {
-			sim.Go(fmt.Sprintf("reader%d", idx), func() {
+			sim.Go(sf("reader%d", idx), func() {
 				buf := make([]byte, 8192)
 				for {
 					_, err := ep.Read(buf)
@@ -329,7 +321,7 @@ func rawClientTask(idx int, spec ServiceSpec, c ClientSpec) func() {
 		}
 		// the writer is a child task: a stalled exchange (both sides blocked in
 		// write) must not keep this client from going away at quiescence
-		sim.Go(fmt.Sprintf("writer%d", idx), func() {
+		sim.Go(sf("writer%d", idx), func() {
 			stream := c.stream()
 			off := 0
 			for i := 0; off < len(stream); i++ {
@@ -338,7 +330,7 @@ func rawClientTask(idx int, spec ServiceSpec, c ClientSpec) func() {
 					n = c.Cuts[i]
 				}
 				if _, err := ep.Write(stream[off : off+n]); err != nil {
-					sim.Rec("client.writefail", fmt.Sprintf("%d", idx))
+					sim.Rec("client.writefail", sf("%d", idx))
 					return
 				}
 				off += n
@@ -364,7 +356,7 @@ func rawClientTask(idx int, spec ServiceSpec, c ClientSpec) func() {
 		} else {
 			ep.Close()
 		}
-		sim.Rec("client.end", fmt.Sprintf("%d", idx))
+		sim.Rec("client.end", sf("%d", idx))
 	}
 }
 
@@ -387,9 +379,7 @@ func awaitTriggers(list, network, addr string) {
 				return 1, false
 			}
 			rel := strings.HasPrefix(parts[i], "+")
-			n := 0
-			fmt.Sscanf(strings.TrimPrefix(parts[i], "+"), "%d", &n)
-			return n, rel
+			return atoi(strings.TrimPrefix(parts[i], "+")), rel
 		}
 		counting := func(kind sim.CondKind) {
 			n, rel := num(1)
